@@ -27,7 +27,7 @@ RULES = {
     "R6": "SparseDrugCombo target = logit(clip(obs, 0.01, 0.99))",
     "R7": "row-class predicate table: single-agent sites use count(control) = arity-1, combination sites use = 0",
 }
-MIN = {"R1": 1, "R2": 3, "R3": 1, "R4": 2, "R5": 3, "R6": 1, "R7": 5}
+MIN = {"R1": 1, "R2": 3, "R3": 1, "R4": 2, "R5": 3, "R6": 1, "R7": 2}
 TRUSTED = ["resolved call graph is an over-approximation of the dynamic one (typed resolution + name-CHA fallback + "
            "all overriding subclasses); classes chosen by name on the command line are subclasses of the declared bases",
            "numpy comparison semantics: `x >= 0` is False for NaN"]
@@ -415,6 +415,14 @@ def r7(ctx, rule="R7", sites=ROW_CLASS_SITES):
                   f"{names[role]} (count(control) {want[1]} {want[2]}); the two differ for arity > 2 or for all-control rows")
 
 
+C04_SITES = [s for s in ROW_CLASS_SITES if s[0] in ("data.create_single_treatment_effect_map", "models.sparse_combo_interaction.SparseDrugComboInteraction._add_observations")]
+
+
+def r7_c04(ctx):
+    """C04 only owns the row-class sites on the training path; the other tabled sites belong to C13.R7 / C20.R3"""
+    r7(ctx, sites=C04_SITES)
+
+
 def run(ctx):
     r1(ctx)
     r2(ctx)
@@ -425,7 +433,7 @@ def run(ctx):
     r7(ctx)
 
 
-RULE_FUNCS = [r1, r2, r3, r4, r5, r6, r7]
+RULE_FUNCS = [r1, r2, r3, r4, r5, r6, r7_c04]
 
 
 def _rep(a, b):
